@@ -2,6 +2,7 @@ package main
 
 import (
 	"fmt"
+	"os"
 	"sort"
 	"time"
 	"go/constant"
@@ -109,6 +110,7 @@ type Machine struct {
 	mergeChains bool
 	sets        map[string]int
 	deadline    time.Time
+	curIns      ssa.Instruction
 }
 
 type snapshot struct {
@@ -131,6 +133,14 @@ var defaultInitPkgs = []string{"unicode/utf8", "unicode/utf16", "io", "encoding/
 	"encoding/base64", "math", "time",
 	"github.com/segmentio/asm/ascii", "github.com/segmentio/asm/keyset", "github.com/segmentio/asm/base64", "github.com/segmentio/asm/internal/unsafebytes",
 	"github.com/segmentio/asm/cpu", "github.com/segmentio/asm/cpu/x86", "github.com/segmentio/asm/cpu/arm", "github.com/segmentio/asm/cpu/arm64", "github.com/segmentio/asm/cpu/cpuid"}
+
+var (
+	dbgNoPcset = os.Getenv("VF_NOPCSET") != ""
+	dbgNoDom   = os.Getenv("VF_NODOM") != ""
+	dbgNoReuse = os.Getenv("VF_NOREUSE") != ""
+	dbgNoMerge = os.Getenv("VF_NOMERGE") != ""
+	dbgDec     = os.Getenv("VF_TRACEDEC") != ""
+)
 
 // packages whose globals may be read as zero values without running their init (CPU feature words: "no features")
 var zeroOKPkgs = map[string]bool{"github.com/segmentio/asm/cpu": true, "internal/cpu": true, "golang.org/x/sys/cpu": true}
@@ -164,7 +174,7 @@ func NewMachine(ld *loaded, job *Job) *Machine {
 		}
 	}
 	m.sets = job.Sets
-	m.mergeChains = true
+	m.mergeChains = !dbgNoMerge
 	if job.DeadlineS > 0 {
 		m.deadline = time.Now().Add(time.Duration(job.DeadlineS * float64(time.Second)))
 	}
@@ -325,13 +335,15 @@ func (m *Machine) branch(c *Term) bool {
 	if c.IsConst() {
 		return c.c == 1
 	}
-	if m.pcset[c] {
-		return true
+	if !dbgNoPcset {
+		if m.pcset[c] {
+			return true
+		}
+		if m.pcset[Not(c)] {
+			return false
+		}
 	}
-	if m.pcset[Not(c)] {
-		return false
-	}
-	if v := soleVar(c); v != nil && v != multiVar {
+	if v := soleVar(c); !dbgNoDom && v != nil && v != multiVar {
 		_, all, none := m.trueSet(c, v)
 		if all && !none {
 			m.stats.domDecided++
@@ -375,8 +387,14 @@ func (m *Machine) branch(c *Term) bool {
 		np := append(append([]int{}, m.prefix[:k]...), other)
 		m.pending = append(m.pending, pendingPath{np, mod})
 		m.stats.forks++
+		if dbgDec {
+			fmt.Fprintf(os.Stderr, "  branch k=%d first=%d other feasible (%s) at %s: %s\n", k, first, r, m.curIns.Parent(), m.curIns)
+		}
 	}
 	m.solver.Pop(1)
+	if dbgDec && r == "unsat" {
+		fmt.Fprintf(os.Stderr, "  branch k=%d first=%d other INFEASIBLE at %s: %s\n", k, first, m.curIns.Parent(), m.curIns)
+	}
 	m.prefix = append(m.prefix, first)
 	if first == 1 {
 		m.takeCond(c)
@@ -419,6 +437,9 @@ func (m *Machine) concInt(t *Term, what string) int {
 		np := append(append([]int{}, m.prefix[:k]...), v)
 		m.pending = append(m.pending, pendingPath{np, mod})
 		m.stats.forks++
+		if dbgDec {
+			fmt.Fprintf(os.Stderr, "  conc k=%d %s alt=%d (v0=%d)\n", k, what, v, v0)
+		}
 		excl = Not(Eq(t, Const(t.w, uint64(v))))
 		n++
 		if n > m.maxConc {
@@ -575,6 +596,9 @@ func (m *Machine) runPath(entry *ssa.Function, pp pendingPath) (status, msg stri
 	if m.common > m.solver.depth {
 		m.common = m.solver.depth
 	}
+	if dbgNoReuse {
+		m.common = 0
+	}
 	m.solver.Pop(m.solver.depth - m.common)
 	m.prevPrefix = append([]int{}, pp.prefix...)
 	m.decLevel = m.decLevel[:0]
@@ -637,6 +661,10 @@ func (m *Machine) Explore(entry *ssa.Function) {
 		pp := m.pending[len(m.pending)-1]
 		m.pending = m.pending[:len(m.pending)-1]
 		st, msg := m.runPath(entry, pp)
+		if dbgDec {
+			w, _ := m.witness(m.model)
+			fmt.Fprintf(os.Stderr, "path %d prefix=%v -> %s %s dec=%d final=%v wit=%s\n", m.stats.paths, pp.prefix, st, msg, m.dec, m.prefix, witnessStr(w))
+		}
 		m.lastPrefix = append(m.lastPrefix[:0], m.prefix...)
 		m.stats.paths++
 		m.stats.steps += m.steps
@@ -837,6 +865,9 @@ func (m *Machine) call(fn *ssa.Function, args []Val, env []Val) Val {
 			}
 			if m.trace {
 				fmt.Printf("  %s: %s\n", fn.Name(), ins)
+			}
+			if dbgDec {
+				m.curIns = ins
 			}
 			switch x := ins.(type) {
 			case *ssa.Phi:
@@ -1292,7 +1323,7 @@ func (m *Machine) unop(x *ssa.UnOp, v Val) Val {
 			if !ok {
 				endPath("UNSUPPORTED", "table changed under symbolic pointer")
 			}
-			return t
+			return m.valFromBits(x.Type(), t, 0)
 		}
 		p := v.(Ptr)
 		if p.obj == nil {
@@ -1860,4 +1891,35 @@ func (m *Machine) newMap(t *types.Map) *MapObj {
 	mo := &MapObj{id: m.heap.next, typ: t}
 	m.heap.maps = append(m.heap.maps, mo)
 	return mo
+}
+
+// valFromBits interprets bits [off*8, off*8+size) of a little-endian data word as a value of (pointer-free) type t.
+func (m *Machine) valFromBits(t types.Type, bits *Term, off int) Val {
+	switch u := t.Underlying().(type) {
+	case *types.Basic:
+		if u.Kind() == types.Bool {
+			return Not(Eq(Extract(bits, uint8(off*8+7), uint8(off*8)), zero8))
+		}
+		w := basicWidth(u)
+		if w == 255 || u.Kind() == types.String || u.Kind() == types.UnsafePointer {
+			endPath("UNSUPPORTED", "symbolic table element of type %s", t)
+		}
+		return Extract(bits, uint8(off*8+int(w)-1), uint8(off*8))
+	case *types.Struct:
+		offs := sizes.Offsetsof(fieldsOf(u))
+		a := make(Agg, u.NumFields())
+		for i := range a {
+			a[i] = m.valFromBits(u.Field(i).Type(), bits, off+int(offs[i]))
+		}
+		return a
+	case *types.Array:
+		es := sizeof(u.Elem())
+		a := make(Agg, u.Len())
+		for i := range a {
+			a[i] = m.valFromBits(u.Elem(), bits, off+i*es)
+		}
+		return a
+	}
+	endPath("UNSUPPORTED", "symbolic table element of type %s", t)
+	return nil
 }
